@@ -181,6 +181,14 @@ def run_proc(spec):
     return res
 
 
+def _str_diff(a, b):
+    i = 0
+    while i < min(len(a), len(b)) and a[i] == b[i]:
+        i += 1
+    return {'at': i, 'len_first': len(a), 'len_now': len(b), 'first': a[max(0, i - 200):i + 300],
+            'now': b[max(0, i - 200):i + 300]}
+
+
 def _first_diff(good, qi):
     a = good[0][qi].get('ok')
     for other in good[1:]:
@@ -424,7 +432,8 @@ def run_repeat(spec):
                         'c16:repeat:budget_exhausting_query_after_another' if exhausting and q in exhausting
                         else 'c16:repeat:' + q[0], 'query %s at %s:%s answered differently after other queries on '
                         'the same Script than on a Script asked nothing else' % q, first=str(first[q])[:600],
-                        now=str(key)[:600], text=text[:6000], **w)
+                        now=str(key)[:600], difference=_str_diff(str(first[q]), str(key)),
+                        sequence_before=[list(x) for x in seq[:step]][-40:], text=text[:6000], **w)
     res['violations'] = rec.violations
     res['nontrivial'] = nonempty >= 2 and rec.events.get('c16:repeat_comparisons', 0) >= 10
     res['sample'] = {'case': spec['id'], 'mode': 'repeat', 'distinct_queries': len(pool),
